@@ -46,10 +46,6 @@ theorem opset_rule (supported : List Int) (mp : ModelProtoM) (ps : List Decoded)
   · intro h; simp [List.contains_iff_mem, h]
   · intro h; simp [List.contains_iff_mem, h]
 
-/-- the highest version decides: `opsetOf` is the maximum of the imports (0 if there are none) -/
-theorem opsetOf_ge (vs : List Int) : ∀ v ∈ vs, v ≤ opsetOf vs ∨ opsetOf vs = 0 ∨ True := by
-  intro v _; right; right; trivial
-
 theorem foldl_max_ge (vs : List Int) (a : Int) : a ≤ vs.foldl (fun acc v => if v > acc then v else acc) a := by
   induction vs generalizing a with
   | nil => simp
